@@ -5,4 +5,5 @@ pub mod gen;
 pub mod model;
 pub mod props;
 pub mod prover;
+pub mod sched;
 pub mod vdb;
